@@ -217,8 +217,24 @@ func runC04(ctx *core.Ctx) {
 	elPool = append(elPool, allElementVocab...)
 	for el := range vocab.els {
 		elPool = append(elPool, el)
+		// near-misses of the documented names: one character more or less at either end
+		elPool = append(elPool, el+"x", "x"+el, el+"1", el+"-x", el+el)
+		if len(el) > 1 {
+			elPool = append(elPool, el[:len(el)-1], el[1:])
+		}
 	}
 	sort.Strings(elPool)
+	{
+		seen := map[string]bool{}
+		uniq := elPool[:0]
+		for _, e := range elPool {
+			if !seen[e] {
+				seen[e] = true
+				uniq = append(uniq, e)
+			}
+		}
+		elPool = uniq
+	}
 	attrPool := append([]string{}, gen.AttrVocab...)
 	attrPool = append(attrPool, "class", "style", "onclick", "onerror", "srcset", "name", "for", "form", "formaction", "method", "enctype", "autoplay", "controls", "loop", "muted", "preload",
 		"data", "codebase", "archive", "http-equiv", "content", "charset", "media", "sizes", "referrerpolicy", "loading", "decoding", "ismap", "longdesc", "hreflang", "download", "ping", "accept", "pattern", "placeholder", "required", "checked", "disabled", "readonly", "multiple", "selected", "wrap", "rows", "cols", "maxlength", "bgcolor", "color", "face", "size", "border", "cellpadding", "cellspacing", "frame", "rules", "hspace", "vspace", "marginwidth", "allow", "allowfullscreen", "srcdoc", "xml:lang", "xml:base", "xlink:href", "is", "itemprop", "itemscope", "role", "aria-label", "hidden", "draggable", "spellcheck", "translate", "nonce", "part", "slot", "inputmode", "enterkeyhint", "popover")
